@@ -24,7 +24,7 @@ template <class T, class S> void roundTrip(const S& s) {
 		using D = typename T::duration; using R = typename D::rep; const __int128 cnt = v.time_since_epoch().count();
 		const __int128 ticksPerDay = static_cast<__int128>(86400) * D::period::den / D::period::num;
 		if (cnt - static_cast<__int128>(std::numeric_limits<R>::min()) < (ticksPerDay > 0 ? ticksPerDay : 1)) { g_excl = "excluded:KF-27-first-day-of-the-range"; return; }
-		if (D::period::num == 86400 && cnt > static_cast<__int128>(std::numeric_limits<R>::max()) - 719468) { g_excl = "excluded:KF-33-last-1970-years-of-days"; return; }
+		if (D::period::num == 86400 && sizeof(R) == 8 && cnt + 719468 >= (static_cast<__int128>(INT64_MAX) / 146097 + 1) * 146097) { g_excl = "excluded:KF-33-last-era-of-days"; return; }
 	}
 	try { txt = Convert::ToString(v); } catch (const std::exception&) { return; }   // e.g. a time point that is not printable (reported elsewhere: C14)
 	try { w = Convert::To<T>(txt); } catch (const std::exception&) { vfz::fail("a value accepted by Convert::To prints to text that Convert::To rejects"); }
